@@ -792,7 +792,46 @@ def build_kinds():
     add(Kind("text_frame_normautofit", sh("AS", A("text_frame")), S0, text_frame_props(), deck=PP, pairs=False))
     add(Kind("paragraph_spcPct_string", sh("AS", A("text_frame"), A("paragraphs"), I(0)), S0, paragraph_props(), deck=PP, pairs=False))
     add(Kind("placeholder_with_xfrm", S0 + [["a", "shapes"], ["idx", 1]], S0, placeholder_props(), deck=PP))
+
+    # --- twins: a SECOND object of the same kind in the same deck (aliasing: a template element, default object or
+    # cache shared between two objects of one kind shows only when both are touched in one session) ----------------
+    by_name = {k.name: k for k in kinds}
+
+    def twin(name, edit):
+        K = by_name[name]
+        path = edit([list(x) for x in K.path])
+        add(Kind(name + "@twin", path, K.part, K.props, deck=K.deck, pairs=False))
+        TWIN_GROUPS.append((name, name + "@twin"))
+
+    def other_shape(new):
+        def f(path):
+            path[1] = ["shape", new]
+            return path
+        return f
+
+    def other_index(pos, new):
+        def f(path):
+            path[pos] = new
+            return path
+        return f
+
+    del TWIN_GROUPS[:]
+    for n in ("autoshape", "click_hyperlink", "click_action", "run_hyperlink", "text_frame", "paragraph", "run_font",
+              "fill", "line", "shadow"):
+        twin(n, other_shape("AS-theme"))
+    twin("cell", other_index(3, ["call", "cell", [1, 0]]))
+    twin("row", other_index(4, ["idx", 0]))
+    twin("column", other_index(4, ["idx", 1]))
+    twin("gradient_stop", other_index(4, ["idx", 1]))
+    twin("bar_series", other_index(6, ["idx", 0]))
+    twin("marker", other_index(6, ["idx", 0]))
+    twin("category_axis", other_shape("CH-line"))
+    twin("value_axis", other_shape("CH-line"))
+    twin("data_labels", other_shape("CH-pie"))
     return kinds
+
+
+TWIN_GROUPS = []
 
 
 _KINDS = None
